@@ -194,6 +194,47 @@ def inv_jsonld0(data, prefix_map: dict[str, str], _i, _xs):
             and all(t[0] in prefix_map for t in _xs[:_i] if t[0] != "" and not t[0].startswith("@")))
 
 
+@lemma("C13.listed_pairs_expand_and_compress", props=["C13"])
+def l_c13_pairs(pm: dict[str, str], p: str, x: str):
+    """Over the contracts of from_prefix_map, expand and compress: every listed pair expands accordingly and its URIs are
+    recognised (the default strict converter; an injective map, otherwise construction is rejected: contract of the loader)."""
+    requires(all(a == b or pm[a] != pm[b] for a in pm for b in pm))
+    requires(p in pm and first_occ(p, ":"))
+    c = Converter.from_prefix_map(pm)
+    assert WF(c) and c.delimiter == ":"
+    assert c.expand(p + ":" + x) == pm[p] + x
+    assert c.compress(pm[p] + x) is not None
+    if all(first_occ(q, ":") for q in pm):
+        # ... and compress back to a CURIE that expands to the same URI (no listed prefix contains the delimiter)
+        assert c.expand(c.compress(pm[p] + x)) == pm[p] + x
+
+
+@lemma("C13.priority_pairs_expand_and_compress", props=["C13"])
+def l_c13_priority_pairs(data: dict[str, list[str]], p: str, i: int, x: str):
+    """Over the contracts of from_priority_prefix_map, expand and compress: expansion uses the FIRST URI prefix of the list,
+    every listed URI prefix is recognised."""
+    requires(all(len(data[q]) > 0 for q in data))
+    requires(not any(data[q][0] in data[q][1:] for q in data))
+    requires(not any(data[a][m] == data[b][n] for a in data for b in data if a != b for m in range(len(data[a])) for n in range(len(data[b]))))
+    requires(p in data and first_occ(p, ":") and 0 <= i and i < len(data[p]))
+    c = Converter.from_priority_prefix_map(data)
+    assert WF(c) and c.delimiter == ":"
+    assert c.expand(p + ":" + x) == data[p][0] + x
+    assert c.compress(data[p][i] + x) is not None
+
+
+@lemma("C13.reverse_pairs_expand_and_compress", props=["C13"])
+def l_c13_reverse_pairs(rpm: dict[str, str], u: str, x: str):
+    """Over the contracts of from_reverse_prefix_map, expand and compress: every listed URI prefix is recognised and its
+    CURIE prefix expands to a shortest URI prefix of its group."""
+    requires(u in rpm and first_occ(rpm[u], ":"))
+    c = Converter.from_reverse_prefix_map(rpm)
+    assert WF(c) and c.delimiter == ":"
+    assert c.compress(u + x) is not None
+    e = c.expand(rpm[u] + ":" + x)
+    assert any(rpm[v] == rpm[u] and e == v + x and len(v) <= len(u) for v in rpm)
+
+
 @lemma("C13.loader_keyword_defaults", props=["C13", "C04"], bounded_only="the contracts of the loaders name the forwarded keyword arguments; that leaving them out means delimiter=':' and strict=True is the signature of Converter.__init__, exercised here")
 def l_c13_loader_defaults(pm: dict):
     def outcome(f):
